@@ -1,4 +1,7 @@
 import AmrK.Paths
+import AmrK.PathsMore
+import AmrK.Effects
+import AmrK.Obligations.NoSwallow
 /-! # C13 — tools never touch their inputs and report failures instead of returning
 
 POSIX path model on bytes: a path is a list of components, `render` joins them with `/`,
@@ -19,5 +22,34 @@ theorem concat_inside_trailing_slash (abs : Bool) (cs : List Bytes) (suffix : By
     (h : GoodComps cs) (hs : suffix ≠ []) (hsuf : NoByte 47 suffix) :
     Inside (render abs cs ++ [47] ++ suffix) (render abs cs ++ [47]) :=
   Paths.concat_inside_trailing_slash abs cs suffix h hs hsuf
+
+/-- **sibling defaults** (repaired mandoline `split(normpath p)[0]/S…`, chk2plt, combine): a path with
+    the same parent and any single last component is never inside `p` -/
+theorem sibling_not_inside (abs : Bool) (cs : List Bytes) (last name : Bytes)
+    (h : GoodComps (cs ++ [last])) (hn : name ≠ [] ∧ NoByte 47 name) :
+    ¬ Inside (render abs (cs ++ [name])) (render abs (cs ++ [last])) :=
+  Paths.sibling_not_inside abs cs last name h hn
+
+/-- … and it differs from the input itself exactly when the name differs from the input's last
+    component (chk2plt: a checkpoint name without `chk` now gets the suffix `_plt`) -/
+theorem sibling_ne_iff (abs : Bool) (cs : List Bytes) (last name : Bytes)
+    (h : GoodComps (cs ++ [last])) (hn : name ≠ [] ∧ NoByte 47 name) :
+    render abs (cs ++ [name]) ≠ render abs (cs ++ [last]) ↔ name ≠ last :=
+  Paths.sibling_ne_iff abs cs last name h hn
+
+/-- **A fault at any write-side call of a run surfaces as an exception** when no write-side call sits
+    inside a `try` block whose handlers swallow I/O errors (effects model) -/
+theorem fault_propagates (prog : List Effects.Item) (h : Effects.NoSwallow prog) (k : Nat) (hk : k < Effects.total prog) :
+    Effects.exec prog k = .raised :=
+  Effects.fault_propagates prog h k hk
+
+/-- … and a write inside a swallowing block makes some fault return normally -/
+theorem swallow_returns (pre : List Effects.Item) (n : Nat) (hn : 0 < n) (post : List Effects.Item) (hpre : Effects.NoSwallow pre) :
+    Effects.exec (pre ++ ⟨n, true⟩ :: post) (Effects.total pre) = .returned :=
+  Effects.swallow_returns pre n hn post hpre
+
+/-- **the hypothesis holds of the code as it is now**: the table of write-side calls inside swallowing
+    `try` blocks, regenerated from the Python sources on every run, is empty -/
+theorem no_swallowed_writes_in_source : Generated.swallowedWriteSites = [] := Generated.no_swallowed_writes
 
 end C13
